@@ -1103,6 +1103,7 @@ class World(object):
         st.extra['big_write'] = {'n': n, 'expected': expect, 'observed': {k_: got.get(k_, 0) for k_ in expect},
                                  'flags': {f: bool(x.status.get(f)) for f in ('overflow', 'underflow', 'inaccuracy')}}
         self.bump('big_array_write')
+        st.transients.append(x)          # (C02 looks at it once: every code of the large array in range)
 
     def op_acc_copy(self, st):
         """An ACCUMULATOR (an object that names itself as its own result register: x.config.op_out = x)
